@@ -9,6 +9,15 @@ COMMON_NOTE = ("Trusted: Coq 8.16.1 kernel and its VM (vm_compute; no native_com
                "(virtual clock, scheduler, canonicalisation, case printer). ")
 # id -> (text, note, technique, design_ref)
 CLAIMED = {
+ "C19": ("Theorems for every keyspace, instant and command: the backend's translation of each cache command into server commands (SET PX NX/XX, MGET, UNLINK, SCAN MATCH, PEXPIRE, "
+         "TTL, INCRBY, the three Lua scripts transcribed, SADD+PEXPIRE pipeline, BITFIELD) and of the replies back has exactly the effect and result of a cache-level reference TTL "
+         "map with Redis's policies, hence for every history; with the server unreachable and suppression on the keyspace is untouched, only ping raises and every other command "
+         "gives the default / failure answer; with suppression off exactly CacheBackendInteractionError; over any history with any down/up switching no other exception. The real "
+         "cashews Redis backend runs on an in-process stand-in for redis-py + server (Lua subset interpreted, so script edits execute); results and the whole keyspace after every "
+         "command are compared with the model and judged against the reference; every decorator is run over a dead server.",
+         "the stand-in's fidelity to a real Redis server is trusted (none available offline); the server goes down between commands, not inside one; decorators over a dead server are "
+         "checked on runs, only the read-through shape is proved (partial).",
+         "Coq proof (per-command refinement to a reference map + down-safety, lifted to histories) + differential run of the real backend on an in-process server stand-in", "3/C19"),
  "C05": ("Theorems for every number of tasks, every program and every schedule at the granularity of single backend commands: a step of one task never touches another "
          "task's state and a task outside any block acts on the store directly (no capture); a task inside a block changes the store only at its commit, only if its "
          "body ended normally, and writes exactly the overlay / delete set obtained from its own write commands (6-part per-transaction invariant); lock invariant "
